@@ -104,7 +104,10 @@ def replay(obj):
 LEVEL_TEXT = ('Partial. The full statement is false of the code as it stands: three refutation witnesses are theorems on the model (an attachment keyword at '
               'depth 0 followed by a character the attachment rule cannot take -> ParseError; a character lxml refuses -> ValueError; an attribute '
               'name that is not an XML name -> ValueError) and are listed as known findings F1-F3 with executable classifiers. Proved: the pre-parse '
-              'stage is total on the property alphabet; the grammar\'s fallback rule `inline` never fails on a non-newline scalar value. The model of '
+              'stage is total on the property alphabet; the grammar\'s fallback rule `inline` never fails on a non-newline scalar value; a line that starts with none of the block keywords '
+              '(the FIRST literals of every block rule of the regenerated grammar) and holds no backslash and no doubled inline marker is accepted by '
+              'hier_block_element through the fallback rule `line`, and to_dict makes it one p spelling exactly the line '
+              '(C01_unrecognised_line_is_a_paragraph). The model of '
               'the whole pipeline, exception kinds included, is tied to the code by the e2e stage; totality of the grammar stage elsewhere is decided '
               'by the exception search on the implementation (6 roots x prefixes, mutations with control characters, odd attribute names, '
               'truncated/extended keywords), any failure outside the three classes being a violation.')
